@@ -98,6 +98,7 @@ def e1_check(pid, tier, replay):
         "model_configs": [{k: m[k] for k in ("config", "ok", "states", "transitions", "wall_s")} for m in mc],
         "model_check_failures": [m["config"] for m in mc_bad],
         "edge_cover": res.get("edge_cover", []),
+        "conformance": res.get("conformance", {}),
         "distinct_nontrivial": sum(s.get("edges", 0) for s in res.get("edge_cover", [])),
         "crashes": [{k: c[k] for k in ("script", "kind", "head", "frames")} for c in res["crashes"]],
         "engine_cached_dir": os.path.basename(d),
